@@ -11,7 +11,9 @@ Generator: mode (regular, transparent, socks5, upstream:http, upstream:https, re
 upstream_auth (unset, plain, with extra colons, non-ASCII, empty password) x a sequence of client actions:
 absolute-form http:// and https:// requests (also to the very same explicit host:port under both schemes), CONNECT to port 80/443 followed by plain or TLS (real ssl client)
 inner requests, origin-form requests for reverse/transparent/socks5 (plain or TLS client), each request optionally
-carrying the client's own Authorization / Proxy-Authorization headers; the `mode` option lists the client's mode alone
+carrying the client's own Authorization / Proxy-Authorization headers; inside intercepted TLS the client speaks
+HTTP/1 or HTTP/2 (independent hyper-h2 peer, ALPN h2) with a :scheme pseudo-header (https / http / ftp) chosen
+independently of the tunnel's TLS state; the `mode` option lists the client's mode alone
 or together with a second mode in either order.  One case in five is a client replay: a flow recorded live in some mode
 is prepared exactly like ClientPlayback.start_replay does (is_replay="request") and handed to the real
 clientplayback.ReplayHandler, which picks context / via / HTTP mode from the `mode` option list (1-2 modes); the
@@ -26,7 +28,8 @@ import base64
 
 from hypothesis import strategies as st
 
-from modes_harness import (AddonDriver, Env, H1Bad, HttpEndpoint, TestPki, TlsClient, make_context, parse_responses)
+from modes_harness import (AddonDriver, Env, H1Bad, H2Client, HttpEndpoint, TestPki, TlsClient, make_context,
+                           parse_responses)
 from runner import HarnessError, hyp
 
 PID = "C24"
@@ -82,7 +85,9 @@ def _decode(b: bytes):
 
     def req(i):
         k = r.byte()
-        return {"i": i, "method": r.pick(["GET", "GET", "POST"]), "own_a": k % 5 == 0, "own_pa": k % 7 == 0}
+        return {"i": i, "method": r.pick(["GET", "GET", "POST"]), "own_a": k % 5 == 0, "own_pa": k % 7 == 0,
+                # HTTP/2 only: the :scheme pseudo-header, chosen independently of the tunnel's TLS state
+                "h2scheme": r.pick(["https", "http", "https", "http", "ftp"])}
     actions = []
     n = 0
     if mode in ("regular",) or mode.startswith("upstream"):
@@ -96,15 +101,16 @@ def _decode(b: bytes):
         if r.byte() % 4 or not actions:
             # plain HTTP inside a client tunnel in upstream mode is the recorded finding C24-...-plain-tunnel:
             # keep it at ~1/6 there so that most of the budget searches behind it
-            inner = r.pick(["plain", "tls", "tls", "tls", "tls", "tls"] if mode.startswith("upstream") else ["plain", "tls"])
+            inner = r.pick(["plain", "tls", "tls", "h2", "h2", "tls"] if mode.startswith("upstream") else ["plain", "tls", "h2"])
             reqs = []
             for _ in range(1 + r.byte() % 2):
                 reqs.append(req(n))
                 n += 1
-            actions.append({"kind": "connect", "port": 443 if inner == "tls" else r.pick([80, 8080]), "inner": inner, "reqs": reqs,
+            actions.append({"kind": "connect", "port": 443 if inner != "plain" else r.pick([80, 8080]), "inner": inner, "reqs": reqs,
                             "own_pa": r.byte() % 6 == 0})
     else:
-        tls = mode in ("transparent", "socks5") and r.byte() % 3 == 0
+        tk = r.byte() % 6
+        tls = (False, False, False, True, "h2", "h2" if tk else True)[tk] if mode in ("transparent", "socks5") else False
         reqs = []
         for _ in range(1 + r.byte() % 3):
             reqs.append(req(n))
@@ -112,6 +118,10 @@ def _decode(b: bytes):
         actions.append({"kind": "direct", "tls": tls, "reqs": reqs})
     case = {"mode": mode, "auth": auth, "actions": actions, "eager": bool(r.byte() & 1),
             "send_host": r.byte() % 4 != 0}
+    if any(a.get("inner") == "h2" or a.get("tls") == "h2" for a in actions):
+        # HTTP/2 towards the client is only negotiated when mitmproxy has not already learnt that the server (our
+        # HTTP/1-only peer) does not speak h2, i.e. with the lazy connection strategy
+        case["eager"] = False
     # multi-mode configurations: the `mode` option lists the client's mode and possibly another one, in either order
     mk = r.byte()
     other = r.pick(["regular", "upstream:http", "socks5", "transparent", "reverse:http"])
@@ -164,6 +174,48 @@ def _abs_form(rq, scheme, port=None):
     return o.replace(b" /r", b" " + scheme.encode() + b"://" + auth + b"/r", 1)
 
 
+def _h2_headers(rq):
+    h = [(b":method", rq["method"].encode()), (b":scheme", rq.get("h2scheme", "https").encode()),
+         (b":authority", ORIGIN.encode()), (b":path", b"/r%d" % rq["i"])]
+    if rq["own_a"]:
+        h.append((b"authorization", CLIENT_A.split(b": ")[1]))
+    if rq["own_pa"]:
+        h.append((b"proxy-authorization", CLIENT_PA.split(b": ")[1]))
+    return h, (b"body-%d" % rq["i"] if rq["method"] == "POST" else b"")
+
+
+def _tls_requests(ctx, d, client, reqs, want_h2):
+    """requests inside an intercepted TLS session: HTTP/2 if wanted and negotiated, else HTTP/1.
+    -> (clear text the client received, number of 200 answers) or None if the handshake failed"""
+    t = TlsClient(d, client, ORIGIN, h2=bool(want_h2))
+    if not t.handshake():
+        ctx.cls("client-tls-handshake-failed")
+        return None
+    if want_h2 and t.alpn() == "h2":
+        ctx.cls("client-speaks-h2")
+        c = H2Client(t)
+        ok = 0
+        for rq in reqs:
+            hdrs, body = _h2_headers(rq)
+            sid = c.request(hdrs, body)
+            rec = c.response(sid)
+            if rec is not None and rec.headers and dict(rec.headers).get(b":status") == b"200":
+                ok += 1
+        seen = b"".join(b"%s: %s\n" % (k, v) for rec in c.peer.streams.values() for k, v in (rec.headers or [])) + \
+            b"".join(rec.data for rec in c.peer.streams.values())
+        return seen, ok
+    if want_h2:
+        ctx.cls("h2-not-negotiated")
+    for rq in reqs:
+        t.send(_origin_form(rq))
+    try:
+        resps, _ = parse_responses(t.plain_in, [rq["method"].encode() for rq in reqs])
+        ok = sum(1 for x in resps if x.status == 200 and x.body in (b"ok", b""))
+    except H1Bad:
+        ok = 0
+    return t.plain_in, ok
+
+
 def check_case(case, ctx):
     env = Env.get(tls=True)
     TestPki.get()
@@ -209,14 +261,11 @@ def check_case(case, ctx):
             methods = [rq["method"].encode() for rq in act["reqs"]]
             wanted += len(methods)
             if act["tls"]:
-                t = TlsClient(d, client, ORIGIN)
-                if not t.handshake():
-                    ctx.cls("client-tls-handshake-failed")
+                got = _tls_requests(ctx, d, client, act["reqs"], act["tls"] == "h2")
+                if got is None:
                     break
-                for rq in act["reqs"]:
-                    t.send(_origin_form(rq))
-                seen_plain_client += t.plain_in
-                served += count_ok(t.plain_in, methods)
+                seen_plain_client += got[0]
+                served += got[1]
             else:
                 for rq in act["reqs"]:
                     d.recv(client, _origin_form(rq))
@@ -245,15 +294,12 @@ def check_case(case, ctx):
                 break
             methods = [rq["method"].encode() for rq in act["reqs"]]
             wanted += len(methods)
-            if act["inner"] == "tls":
-                t = TlsClient(d, client, ORIGIN)
-                if not t.handshake():
-                    ctx.cls("client-tls-handshake-failed")
+            if act["inner"] in ("tls", "h2"):
+                got = _tls_requests(ctx, d, client, act["reqs"], act["inner"] == "h2")
+                if got is None:
                     break
-                for rq in act["reqs"]:
-                    t.send(_origin_form(rq))
-                seen_plain_client += t.plain_in
-                served += count_ok(t.plain_in, methods)
+                seen_plain_client += got[0]
+                served += got[1]
             else:
                 base = len(d.out(client))
                 for rq in act["reqs"]:
@@ -280,6 +326,18 @@ def check_case(case, ctx):
     up_label = "%s:%d" % UP
     in_tunnel_seen = False
     tls_seen = False
+    # which client action issued request /r<i> (part of the bucket: one bucket == one way of getting there)
+    origin_of = {}
+    for a in case["actions"]:
+        for rq in (a.get("reqs") or [a["req"]]):
+            origin_of[rq["i"]] = "%s:%s" % (a["kind"], a.get("scheme") or a.get("inner") or (
+                {True: "tls", False: "plain"}.get(a.get("tls"), a.get("tls"))))
+
+    def came_from(m):
+        if m.method == b"CONNECT":
+            return "proxy-connect"
+        tail = m.target.rsplit(b"/r", 1)[-1]
+        return origin_of.get(int(tail), "?") if tail.isdigit() else "?"
     for label, depth, m in log:
         pa = m.get_all("proxy-authorization")
         au = m.get_all("authorization")
@@ -296,8 +354,9 @@ def check_case(case, ctx):
             place = "to-origin"
         if depth:
             tls_seen = True
-        klass = "%s,%s,%s" % (mode.split(":")[0] if not is_upstream else "upstream", place,
-                              "CONNECT" if m.method == b"CONNECT" else ("abs" if b"://" in m.target else "origin-form"))
+        klass = "%s,%s,%s,from=%s" % (mode.split(":")[0] if not is_upstream else "upstream", place,
+                                      "CONNECT" if m.method == b"CONNECT" else ("abs" if b"://" in m.target else "origin-form"),
+                                      came_from(m))
         info = "%s %r headers=%r auth=%r" % (label, m.start, m.headers, auth)
         if X is None:
             # nothing may be added: only what the client itself sent
@@ -319,9 +378,10 @@ def check_case(case, ctx):
         for label, data in plain.items():
             if ">tunnel" in label or not (mode.startswith("upstream") or mode.startswith("reverse")):
                 if token in data:
-                    ctx.fail("credential-leaked-bytes:%s,%s" % (mode.split(":")[0], (
-                        "in-tunnel-tls" if label.endswith(">tunnel+tls") else "in-tunnel-plain") if ">tunnel" in label else "to-origin"),
-                             "%s: %r" % (label, data[:300]))
+                    froms = sorted({came_from(m) for lb, _, m in log if lb == label and token in m.raw_head}) or ["?"]
+                    ctx.fail("credential-leaked-bytes:%s,%s,from=%s" % (mode.split(":")[0], (
+                        "in-tunnel-tls" if label.endswith(">tunnel+tls") else "in-tunnel-plain") if ">tunnel" in label else "to-origin",
+                        "+".join(froms)), "%s: %r" % (label, data[:300]))
         if token in seen_plain_client or token in d.out(client):
             ctx.fail("credential-returned-to-client:%s" % mode.split(":")[0], repr(seen_plain_client[:300]))
     if served < wanted:
